@@ -130,6 +130,10 @@ def run_case(cfg):
         raw = uni.raw_frame(m_closes, m0, m1, liq, open_tick=m_closes[0], tick_dtype=cfg["dtype"])
     else:
         raw = uni.raw_frame(closes, in0, in1, liq, open_tick=closes[0], tick_dtype=cfg["dtype"])
+    if cfg.get("gap_bars"):
+        # the bar's own open / high / low columns describe the swaps INSIDE the bar: after a gap they start at the bar's close, not at the previous close
+        for col in ("openTick", "lowestTick", "highestTick"):
+            raw[col] = raw["closeTick"]
     market = uni.make_market(pool, uni.prepared(raw, pool))
     script = {("on_bar", cfg["open_bar"]): [do_op("open", grid)]}
     op, hook, ob = cfg["op"], cfg["hook"], cfg["op_bar"]
@@ -263,6 +267,9 @@ def configs(thorough):
         for op in ("add_same", "remove_part"):
             out.append({"closes": [TICKS[4], a, b], "pool": "small", "dtype": "float64", "open_bar": 0, "op": op, "op_bar": 2, "hook": "on_bar", "idle_market_first": True})
         out.append({"closes": [TICKS[4], a, b], "pool": "small", "dtype": "float64", "open_bar": 1, "op": "none", "op_bar": 1, "hook": "on_bar", "idle_market_first": True})
+    # gap bars: open / high / low of the bar equal its close (the previous close lies outside the bar's own high-low span)
+    for a, b in itertools.product(TICKS, repeat=2):
+        out.append({"closes": [TICKS[4], a, b], "pool": "small", "dtype": "float64", "open_bar": 0, "op": "none", "op_bar": 1, "hook": "on_bar", "gap_bars": True})
     # one-way flow: only one of the two tokens was paid in during the bars
     for a, b in itertools.product(TICKS, repeat=2):
         for v in ("only0", "only1"):
@@ -328,7 +335,7 @@ def main(run: Run):
 def replay(run: Run, path):
     data = json.load(open(path))
     c = data["case"]
-    cfg = {k: c[k] for k in ("closes", "pool", "dtype", "open_bar", "op", "op_bar", "hook", "grid", "minutes_per_bar", "idle_market_first") if k in c}
+    cfg = {k: c[k] for k in ("closes", "pool", "dtype", "open_bar", "op", "op_bar", "hook", "grid", "minutes_per_bar", "idle_market_first", "gap_bars") if k in c}
     if "vols" in c:
         cfg["vols"] = c["vols"]
     part = Part()
